@@ -139,6 +139,8 @@ def configs(tier):
 
     def add(fn, key, **params):
         o = {"full_rank": True, "hermitian_psd_inputs": True, "budget_s": 80 if tier == "quick" else 900}
+        if params.get("q"):
+            o["budget_s"] = 240  # K^q == C for q >= 3 is attempted last and usually stays INCONCLUSIVE; the other obligations take seconds
         if params.get("illcond"):
             o["float_rtol"] = 1e-4  # replay tolerance for the witness with condition number 1e5 (rounding ~ cond^2 * eps)
         out.append({"key": key, "fn": fn, "params": params, "options": o})
